@@ -343,6 +343,91 @@ def exp_bad_lists(ctx, rng, pool, recipes):
             pass
 
 
+# --------------------------------------------------------------------------- every halo column, filtered vs masked
+
+ALLCOL_KEY = 'c03:filter-column'
+ALLCOL_FIELDS = ['all', 'DEFAULT_FIELDS',
+                 ['id', 'N', 'x_com', 'N_mainprog', 'vcirc_max_L2com_mainprog', 'sigmav3d_L2com_mainprog'],
+                 ['id', 'sigmavMid_com', 'x_L2com', 'r25_com'], ['id', 'N', 'sigman_com', 'sigmar_eigenvecsMaj_com']]
+ALLCOL_FILTERS = ['odd-id', 'N>=200', 'x>0', 'none-on-first', 'all-on-last-odd-before', 'keep-all', 'keep-none']
+
+
+def _allcol_keep(name, h, slab_pos, nslab):
+    import numpy as np
+    ids = np.asarray(h['id'])
+    if name == 'odd-id':
+        return ids % 2 == 1
+    if name == 'N>=200':
+        return np.asarray(h['N']) >= 200
+    if name == 'x>0':
+        return np.asarray(h['x_com'])[:, 0] > 0 if 'x_com' in h.colnames else ids % 3 == 0
+    if name == 'none-on-first':
+        return np.zeros(len(h), bool) if slab_pos == 0 else ids % 2 == 0
+    if name == 'all-on-last-odd-before':
+        return np.ones(len(h), bool) if slab_pos == nslab - 1 else ids % 2 == 1
+    if name == 'keep-all':
+        return np.ones(len(h), bool)
+    return np.zeros(len(h), bool)
+
+
+def check_filter_all_columns(ctx, n=None):
+    """C03 speaks about ROWS: every halo column of the filtered load (scalars, (N,3) vectors, the (N,P) main-progenitor
+    columns of cleaned catalogs, derived columns that need temporaries) must be the same mask of the unfiltered load."""
+    import numpy as np
+    import warnings
+    import catgen
+    from abacusnbody.data.compaso_halo_catalog import CompaSOHaloCatalog
+    rng = np.random.default_rng([ctx.seed, 303])
+    combos = [(cl, f, flt) for cl in (True, False) for f in range(len(ALLCOL_FIELDS)) for flt in ALLCOL_FILTERS]
+    order = rng.permutation(len(combos))
+    n = n if n is not None else ctx.pick(24, len(combos))
+    root = Path(ctx.tmpdir()) / 'allcol'
+    cats = {}
+    for k in order[:n]:
+        cleaned, fi, flt = combos[int(k)]
+        fields = ALLCOL_FIELDS[fi]
+        if not cleaned and isinstance(fields, list):
+            fields = [f for f in fields if not f.endswith('_mainprog')]
+        if cleaned not in cats:
+            d = root / ('c%d' % int(cleaned))
+            cats[cleaned] = catgen.make_catalog(d, np.random.default_rng([ctx.seed, 304, int(cleaned)]), nslabs=3, nhalos=[5, 0, 6], cleaned=cleaned)
+        cat = cats[cleaned]
+        case = dict(kind='filter-all-columns', cleaned=cleaned, fields=fields, filt=flt)
+        ctx.case(case, nontrivial=True)
+        ctx.count('filter-all-columns')
+        state = {'pos': 0}
+
+        def ff(h, _flt=flt, _state=state):
+            m = _allcol_keep(_flt, h, _state['pos'], 3)
+            _state['pos'] += 1
+            return m
+        try:
+            with warnings.catch_warnings():
+                warnings.simplefilter('ignore')
+                unf = CompaSOHaloCatalog(cat.groupdir, cleaned=cleaned, fields=fields if isinstance(fields, str) else list(fields), subsamples=False)
+                fil = CompaSOHaloCatalog(cat.groupdir, cleaned=cleaned, fields=fields if isinstance(fields, str) else list(fields), subsamples=False, filter_func=ff)
+        except Exception as e:   # noqa: BLE001
+            ctx.fail('a filtered / unfiltered load of a valid request raised', case, '%s: %s' % (type(e).__name__, str(e)[:200]), 'two catalogs', key=ALLCOL_KEY)
+            continue
+        # the mask of the unfiltered table: evaluate the same rule per superslab on the unfiltered rows
+        uh, fh = unf.halos, fil.halos
+        bounds = np.concatenate([[0], np.cumsum([s.nhalo for s in cat.slabs])])
+        mask = np.zeros(len(uh), bool)
+        for sp in range(3):
+            seg = uh[bounds[sp]:bounds[sp + 1]]
+            mask[bounds[sp]:bounds[sp + 1]] = _allcol_keep(flt, seg, sp, 3)
+        if list(fh.colnames) != list(uh.colnames) or len(fh) != int(mask.sum()):
+            ctx.fail('filtered load: wrong columns or row count', case, dict(cols=list(fh.colnames), n=len(fh)), dict(cols=list(uh.colnames), n=int(mask.sum())), key=ALLCOL_KEY)
+            continue
+        for col in uh.colnames:
+            a, b = np.asarray(fh[col]), np.asarray(uh[col])[mask]
+            if a.dtype != b.dtype or a.shape != b.shape or a.tobytes() != b.tobytes():
+                rows = [] if a.shape != b.shape else [int(i) for i in np.nonzero(np.any((a != b).reshape(len(a), -1), axis=1))[0][:5]]
+                ctx.fail('filtered load: a halo column is not the mask of the unfiltered column', dict(case, column=col),
+                         dict(dtype=str(a.dtype), shape=list(a.shape), differing_rows=rows), dict(dtype=str(b.dtype), shape=list(b.shape)), key=ALLCOL_KEY)
+                break
+
+
 def corpus_cases():
     from vcommon import CORPUS
     out = []
@@ -411,6 +496,7 @@ def run(ctx):
         for _ in range(ctx.pick(4, 5)):
             exp_mask(ctx, rng, pool, recipe)
     exp_bad_lists(ctx, rng, pool, recipes)
+    check_filter_all_columns(ctx)
     for k in range(ctx.pick(2, 8)):
         recipe = cx.draw_cat_recipe(rng, shape='lc')
         for _ in range(3):
@@ -433,6 +519,10 @@ def intensify(ctx):
 
 
 def replay(ctx, doc):
+    _c = doc['failure']['case'] if 'failure' in doc else doc
+    if _c.get('kind') == 'filter-all-columns':
+        check_filter_all_columns(ctx, n=10 ** 6)
+        return
     c = doc['failure']['case'] if 'failure' in doc else doc
     pool = cx.Pool(ctx)
     if c.get('exp') in ('paths', 'bad-list'):
